@@ -64,6 +64,8 @@ FinishClauses(o) ==
         THEN {} ELSE {"DeliveredIsSumOfSteps"})
   \cup (IF ~T.cfg.checkPower \/ \A a \in Asm : Close(o.delivered[a], o.assigned[a], TolSweep)
         THEN {} ELSE {"DeliveredEqualsAssigned"})
+  \cup (IF ~T.cfg.checkPower \/ \A a \in Asm : Close(o.assigned[a], o.expected[a], TolSweep)
+        THEN {} ELSE {"AssignedEqualsInputIntegral"})
   \cup (IF ~T.cfg.checkPower \/ Close(SumSeq(o.assigned), o.coreTotal, TolSweep + nasm)
         THEN {} ELSE {"AssemblyTotalsSumToCorePower"})
 TrFinish == /\ Live("Finish")
